@@ -478,10 +478,11 @@ Definition recover_ready (d : disk) : bool := rf_ready (next_num d) (reinit d).
 Definition stores (d : disk) (m : rfilter) (b : block) : bool :=
   match fst (plan (Store b) d m) with [_] => true | _ => false end.
 
-(* event index vs chain: for every retained header, the filter a fresh process consults for that
-   block (running window or persisted window) has all bits of the header's bloom — no false negatives *)
-Definition index_covers (d : disk) : bool :=
-  let rf := reinit d in
+(* event index vs chain, for a process whose running filter is rf: for every retained header, the
+   filter consulted for that block (running window, else the persisted window read from disk) has all
+   bits of the header's bloom — no false negatives, and no missing window (a query over a block whose
+   window is neither running nor persisted fails) *)
+Definition covers (d : disk) (rf : rfilter) : bool :=
   negb (rf_err rf) &&
   forallb (fun hb =>
              let n := b_num hb in
@@ -492,6 +493,9 @@ Definition index_covers (d : disk) : bool :=
                   | None => false
                   end)
           (filter (fun hb => floor0 d <=? b_num hb) (d_fam d FHeader)).
+
+(* a fresh process *)
+Definition index_covers (d : disk) : bool := covers d (reinit d).
 
 (* memory vs disk *)
 Definition rf_equiv (a b : rfilter) : bool :=
@@ -504,14 +508,8 @@ Definition rf_superset (m r : rfilter) : bool :=
 
 Definition rf_aligned (m : rfilter) : bool := rf_from m mod W =? 0.
 
-(* the in-memory filter m has every bloom bit of the retained headers that fall in its window: event
-   queries answered by this process have no false negatives for those blocks *)
-Definition mem_covers (d : disk) (m : rfilter) : bool :=
-  negb (rf_err m) &&
-  forallb (fun hb => let n := b_num hb in
-             if (rf_from m <=? n) && (n <=? rf_to m)
-             then forallb (fun k => col_has (rf_cols m) n k) (b_bloom hb) else true)
-          (filter (fun hb => floor0 d <=? b_num hb) (d_fam d FHeader)).
+(* the same process, with its in-memory filter m *)
+Definition mem_covers (d : disk) (m : rfilter) : bool := covers d m.
 
 (* number of batches each operation of a crash-free run commits *)
 Fixpoint batch_counts (ops : list op) (st : disk * rfilter) : list nat :=
